@@ -1,5 +1,5 @@
 /-
-  Lemmas for C12, part 2: a tree seen from a node on its right-most spine (`plug`), and what the
+  Lemmas for C12, part 2: a tree seen from a node on its right-most spine (`fcPlug`), and what the
   primitives do at that node.  During `clone_node` the node being filled (`current`) is always
   the last child of the last child … of the temporary top node.
 -/
@@ -16,9 +16,9 @@ structure CFrame where
   left : List HTree
 
 /-- Rebuild the tree: frames from the root inwards, focus `t` at the bottom right. -/
-def plug : List CFrame → HTree → HTree
+def fcPlug : List CFrame → HTree → HTree
   | [], t => t
-  | fr :: fs, t => .node fr.h fr.v (fr.left ++ [plug fs t])
+  | fr :: fs, t => .node fr.h fr.v (fr.left ++ [fcPlug fs t])
 
 /-- All handles that belong to the frames. -/
 def frameHandles : List CFrame → List Nat
@@ -32,24 +32,24 @@ theorem frameHandles_append (A B : List CFrame) :
   | cons a A ih => simp [frameHandles, ih, List.append_assoc]
 
 theorem handles_plug (fs : List CFrame) (t : HTree) :
-    handles (plug fs t) = frameHandles fs ++ handles t := by
+    handles (fcPlug fs t) = frameHandles fs ++ handles t := by
   induction fs with
   | nil => rfl
   | cons fr fs ih =>
-    simp [plug, handles, frameHandles, handlesList_append, handlesList_singleton, ih, List.append_assoc]
+    simp [fcPlug, handles, frameHandles, handlesList_append, handlesList_singleton, ih, List.append_assoc]
 
-theorem plug_append (fs : List CFrame) (fr : CFrame) (t : HTree) :
-    plug (fs ++ [fr]) t = plug fs (.node fr.h fr.v (fr.left ++ [t])) := by
+theorem fcPlug_append (fs : List CFrame) (fr : CFrame) (t : HTree) :
+    fcPlug (fs ++ [fr]) t = fcPlug fs (.node fr.h fr.v (fr.left ++ [t])) := by
   induction fs with
   | nil => rfl
-  | cons a fs ih => simp [plug, ih]
+  | cons a fs ih => simp [fcPlug, ih]
 
 /-- Handle of the root of the plugged tree. -/
 def plugRoot : List CFrame → HTree → Nat
   | [], t => t.handle
   | fr :: _, _ => fr.h
 
-theorem handle_plug (fs : List CFrame) (t : HTree) : (plug fs t).handle = plugRoot fs t := by
+theorem handle_plug (fs : List CFrame) (t : HTree) : (fcPlug fs t).handle = plugRoot fs t := by
   cases fs <;> rfl
 
 theorem plugRoot_mem (fs : List CFrame) (t : HTree) :
@@ -82,23 +82,23 @@ theorem ancestorsOfList_singleton (h : Nat) (t : HTree) : ancestorsOfList h [t] 
   cases ancestorsOf h t <;> rfl
 
 theorem find?_plug (h : Nat) (fs : List CFrame) (t : HTree) (hn : h ∉ frameHandles fs) :
-    find? h (plug fs t) = find? h t := by
+    find? h (fcPlug fs t) = find? h t := by
   induction fs with
   | nil => rfl
   | cons fr fs ih =>
     simp only [frameHandles, List.mem_cons, List.mem_append, not_or] at hn
-    simp only [plug]
+    simp only [fcPlug]
     rw [find?_node_ne _ _ (fun e => hn.1 e.symm), findList?_append_of_not_mem h _ _ hn.2.1,
       findList?_singleton, ih hn.2.2]
 
 theorem mapAt_plug (h : Nat) (g : HTree → HTree) (fs : List CFrame) (t : HTree)
-    (hn : h ∉ frameHandles fs) : mapAt h g (plug fs t) = plug fs (mapAt h g t) := by
+    (hn : h ∉ frameHandles fs) : mapAt h g (fcPlug fs t) = fcPlug fs (mapAt h g t) := by
   induction fs with
   | nil => rfl
   | cons fr fs ih =>
     simp only [frameHandles, List.mem_cons, List.mem_append, not_or] at hn
-    simp only [plug]
-    rw [mapAt_node_ne _ _ _ (fun e => hn.1 e.symm), mapAtList_append, mapAtList_of_not_mem h g _ hn.2.1]
+    simp only [fcPlug]
+    rw [mapAt_node_ne _ _ _ (fun e => hn.1 e.symm), fc_mapAtList_append, fc_mapAtList_of_not_mem h g _ hn.2.1]
     simp only [mapAtList]
     rw [ih hn.2.2]
 
@@ -109,16 +109,16 @@ theorem mapAt_self (h : Nat) (g : HTree → HTree) (v : Value) (ks : List HTree)
 /-- `replaceBelow` reaches the child list of the focus. -/
 theorem replaceBelow_plug (h : Nat) (f : HTree → List HTree) (fs : List CFrame) (c : Nat) (vc : Value)
     (K : List HTree) (hn : h ∉ frameHandles fs) (hc : h ≠ c) :
-    replaceBelow h f (plug fs (.node c vc K)) = plug fs (.node c vc (replaceKids h f K)) := by
+    replaceBelow h f (fcPlug fs (.node c vc K)) = fcPlug fs (.node c vc (replaceKids h f K)) := by
   induction fs with
-  | nil => simp [plug, replaceBelow]
+  | nil => simp [fcPlug, replaceBelow]
   | cons fr fs ih =>
     simp only [frameHandles, List.mem_cons, List.mem_append, not_or] at hn
-    simp only [plug]
+    simp only [fcPlug]
     rw [show ∀ p v ks, replaceBelow h f (.node p v ks) = .node p v (replaceKids h f ks) from
       fun _ _ _ => by simp [replaceBelow]]
     rw [replaceKids_append_of_not_mem h f _ _ hn.2.1]
-    have hr : (plug fs (.node c vc K)).handle ≠ h := by
+    have hr : (fcPlug fs (.node c vc K)).handle ≠ h := by
       rw [handle_plug]
       intro e
       have := plugRoot_mem fs (.node c vc K)
@@ -138,20 +138,20 @@ theorem replaceKids_last (h : Nat) (f : HTree → List HTree) (K' : List HTree) 
   simp [replaceKids, hx]
 
 theorem ancestorsOf_plug (fs : List CFrame) (t : HTree) (hn : t.handle ∉ frameHandles fs) :
-    ancestorsOf t.handle (plug fs t) = some (t.handle :: (fs.map (·.h)).reverse) := by
+    ancestorsOf t.handle (fcPlug fs t) = some (t.handle :: (fs.map (·.h)).reverse) := by
   induction fs with
   | nil =>
     cases t with
-    | node h v ks => simp [plug, ancestorsOf, HTree.handle]
+    | node h v ks => simp [fcPlug, ancestorsOf, HTree.handle]
   | cons fr fs ih =>
     simp only [frameHandles, List.mem_cons, List.mem_append, not_or] at hn
-    simp only [plug]
-    rw [ancestorsOf_node_ne _ _ (fun e => hn.1 e.symm), ancestorsOfList_append_of_not_mem _ _ _ hn.2.1,
+    simp only [fcPlug]
+    rw [ancestorsOf_node_ne _ _ (fun e => hn.1 e.symm), fc_ancestorsOfList_append_of_not_mem _ _ _ hn.2.1,
       ancestorsOfList_singleton, ih hn.2.2]
     simp
 
 theorem ancestorsOf_plug_mem (fs : List CFrame) (t : HTree) (hn : t.handle ∉ frameHandles fs) :
-    ∀ l, ancestorsOf t.handle (plug fs t) = some l → ∀ a ∈ l, a = t.handle ∨ a ∈ frameHandles fs := by
+    ∀ l, ancestorsOf t.handle (fcPlug fs t) = some l → ∀ a ∈ l, a = t.handle ∨ a ∈ frameHandles fs := by
   intro l hl a ha
   rw [ancestorsOf_plug fs t hn] at hl
   cases hl
